@@ -66,6 +66,7 @@ def _base(rnd, k):
     else:
         cfg["max_preconditioner_dim"] = 1024
     shapes = [list(shape) for _ in range(k)]
+    G.stabilise_iterative(cfg, shapes + [[5, 5]], gs)
     while sum(G.n_blocks(s, cfg["max_preconditioner_dim"], cfg["use_merge_dims"]) for s in shapes) > 16:
         cfg["max_preconditioner_dim"] = 1024
     return cfg, shapes, gs
